@@ -4,7 +4,7 @@ P=$1; V=$2; N=${3:-1}; D=/tmp/seed/$P.out/$V; W=/tmp/seedverify/$P$V
 rm -rf $W; mkdir -p /tmp/seedverify; rsync -a --exclude .git /repo/ $W/
 dp=$(cat $D/demo_path.txt | tr -d '\n '); pkg=./$(dirname $dp)
 cp $D/demo_test.go $W/$dp
-name=$(grep -o -E 'func (Test[A-Za-z0-9_]+)' $W/$dp | head -1 | awk '{print $2}')
+name="($(grep -o -E 'func (Test[A-Za-z0-9_]+)' $W/$dp | awk '{print $2}' | paste -sd'|'))"
 cd $W
 echo "== without change ($pkg $name)"; for i in $(seq $N); do GOFLAGS=-mod=mod GOPROXY=off timeout 300 go test -vet=off -count=1 -run "^$name\$" $pkg 2>&1 | tail -1; done
 patch -p1 -s < $D/patch.diff || { echo "PATCH FAILED"; exit 1; }
